@@ -202,6 +202,7 @@ def _modes_for(kind, env_name):
     multi_ok = env_name in P.MULTISTART_ENVS or env_name in ("fjsp", "jssp")
     if kind == "am" and env_name == "mtsp":
         multi_ok = False  # DESIGN 7.17: raises in MTSPContext (reported by C12)
+        modes = ["greedy", "sampling"]  # ... and so does num_samples > 1 (same unbatchified state)
     if env_name in ("ffsp", "dpp", "mdpp"):
         modes = ["greedy", "sampling"]  # replication needs env-side tables / is not defined
         multi_ok = False
@@ -286,7 +287,8 @@ class C11:
          "best-selected or back-tracked sequence does not carry"],
         ["matnet", "atsp", "round trip on the k-fold expanded batch", "random one-hot embedding is drawn per "
          "encoder row; replay is done on the original batch with num_samples=k under the same seed"],
-        ["am", "mtsp", "multistart/beam", "raises in MTSPContext._distance_from_depot (DESIGN 7.17, C12)"],
+        ["am", "mtsp", "multistart/beam/num_samples", "raises in MTSPContext._distance_from_depot (DESIGN 7.17, C12)"],
+        ["*", "mtsp", "B=1", "MTSPEnv.get_reward returns a 0-dim tensor at batch size one (C14's business)"],
         ["*", "ffsp/dpp/mdpp", "multistart/num_samples/beam", "no start-node rule / per-episode tables on the "
          "environment object are not replicated"],
         ["*", "svrp/smtwtp/mdcpdp/dpp/mdpp", "multistart/beam", "no start-node rule in get_num_starts"],
@@ -317,8 +319,8 @@ class C11:
         cfg = _cfg_for(kind, name, n, rc)
         env = E.make_env(cfg)
         B = rc.choice([1, 2, 2, 3, 3, 4])
-        if name == "mtsp" and kind == "am":
-            B = max(B, 2)  # DESIGN 7.4 (C14)
+        if name == "mtsp":
+            B = max(B, 2)  # DESIGN 7.4 and the 0-dim minmax reward at batch size one (C14)
         if scenario == "ppo":
             B = rc.choice([2, 3, 4, 5])
         rows = E.gen_rows(env, cfg, B, st.torch_seed("instances"))
@@ -382,7 +384,7 @@ class C11:
 
     @staticmethod
     def shrink(plan):
-        if len(plan["instances"]) > 1 and not (plan["cfg"]["env"] == "mtsp" and len(plan["instances"]) <= 2):
+        if len(plan["instances"]) > 1 and not (plan["cfg"]["env"] == "mtsp" and len(plan["instances"]) <= 2):  # noqa: E501
             for i in range(len(plan["instances"])):
                 p = copy.deepcopy(plan)
                 del p["instances"][i]
@@ -644,7 +646,7 @@ def _execute_roundtrip(run):
         _check_tap_alignment(run, scope, "run1", tap1, a1, out1["log_likelihood"], sm_full, forced, plan)
     elif forced and not plan["ret_sum"]:
         # beam / best-of-k: rows were re-indexed, but the forced step must still contribute 0
-        z = out1["log_likelihood"][:, 0].detach().abs().max()
+        z = out1["log_likelihood"][:, 0].detach().double().abs().max()
         if float(z) != 0.0:
             run.violate(scope, "loglik_vs_reference", f"forced first move contributes {float(z)!r} to the "
                         "log-likelihood", constraint="forced_step_nonzero", mode=mode, k=k)
@@ -663,11 +665,32 @@ def _execute_roundtrip(run):
         variants = []
     ret_e2 = plan["ret_entropy"] or plan["ret_entropy2"]
     for vname, td2, extra in variants:
+        # A forced first move was never drawn from the policy: replayed as an ordinary step it may have
+        # a log-prob below the -1000 floor asserted in get_log_likelihood.  Where the episode length of
+        # the replay is known beforehand (no best-selection) step 0 is flagged irrelevant through
+        # td["mask"]; otherwise such a replay is skipped (counted).
+        sm_run2 = sm_full
+        if forced and R != B:
+            sm_run2 = torch.ones(a1.shape, dtype=torch.bool) if sm_full is None else sm_full.clone()
+            sm_run2[:, 0] = False
+            td2["mask"] = sm_run2[:B] if vname == "num_samples" else sm_run2
         torch.manual_seed(plan["sample_seed"])
+        skipped = False
         with torch.no_grad(), ProcessTap() as tap2:
             with run.guard(scope, f"policy forward (evaluate, {vname})", mode=mode, k=k, B=B, variant=vname):
-                out2 = pol(td2, env, phase="test", actions=a1, return_actions=True, return_entropy=ret_e2,
-                           return_sum_log_likelihood=False, **dk, **extra)
+                try:
+                    out2 = pol(td2, env, phase="test", actions=a1, return_actions=True, return_entropy=ret_e2,
+                               return_sum_log_likelihood=False, **dk, **extra)
+                except AssertionError as e:
+                    lp0 = tap2.records[0].logprobs if tap2.records else None
+                    if (forced and lp0 is not None and "Logprobs should not be -inf" in str(e)
+                            and bool((lp0.gather(1, a1[:, :1]) <= -1000).any())):
+                        skipped = True
+                    else:
+                        raise
+        if skipped:
+            run.probe("forced_move_below_assert_floor")
+            continue
         run.tick(len(tap2.records))
         a2 = out2["actions"]
         T2 = a2.shape[1]
@@ -675,7 +698,7 @@ def _execute_roundtrip(run):
             run.violate(scope, "evaluate_roundtrip", f"[{vname}] evaluate mode returned other actions than it was fed",
                         constraint="actions", variant=vname, mode=mode, k=k)
             raise StopRun()
-        sm2 = None if sm_full is None else sm_full[:, :T2]
+        sm2 = None if sm_run2 is None else sm_run2[:, :T2]
         _, _ = _check_tap_alignment(run, scope, f"run2[{vname}]", tap2, a2, out2["log_likelihood"], sm2, 0, plan)
         h0 = None
         if forced:
